@@ -314,16 +314,23 @@ def run(tier):
             # the alternating route is replayed on the aliasing configuration and the random walks
             cs = cases if route != "alt" else [c for c in cases if c["init"] == "alias" or len(c["ops"]) > 4]
             jobs.append((kind, route, cs))
-    with ThreadPoolExecutor(max_workers=8) as ex:
-        futs = [(k, r, cs, ex.submit(vlib.run_batch, "c15", cs, [k, r], 2, 20, PID, "%s_%s" % (k, r)))
-                for (k, r, cs) in jobs]
-        for kind, route, cs, f in futs:
+    # at most 6 batches in flight and every result list is dropped as soon as it was compared: holding the results of
+    # all 21 (kind, route) batches made the driver of the thorough tier grow beyond 22 GB
+    with ThreadPoolExecutor(max_workers=6) as ex:
+        pending = list(jobs)
+        running = []
+        while pending or running:
+            while pending and len(running) < 6:
+                (k, r, cs) = pending.pop(0)
+                running.append((k, r, cs, ex.submit(vlib.run_batch, "c15", cs, [k, r], 2, 20, PID, "%s_%s" % (k, r))))
+            kind, route, cs, f = running.pop(0)
             results = f.result()
             for c, res in zip(cs, results):
                 compare(c, res, kind, route, verd, ev)
                 ev.case({"kind": kind, "route": route, "ops": c["ops"]}, nontrivial(c),
                         key=vlib.shash([kind, route, c["init"], c["ops"]]))
                 ev.traces += 1
+            del results, f
     impl_to_spec(tier, ev, verd)
     ev.exhaustive = True
     ev.assumptions = [
